@@ -35,7 +35,7 @@ def build(tree, name="net"):
         return CircuitTemplate(name=nm, path=None, circuits={n: circ(n, s) for n, s in c["subs"]})
     return circ(name, tree)
 
-KNOWN_ERR = ("KeyError", "IndexError", "ValueError", "TypeError")
+KNOWN_ERR = ("KeyError", "IndexError", "ValueError", "TypeError", "PyRatesException")
 
 def impl_gn(case):
     net = build(case["tree"])
@@ -248,7 +248,7 @@ Definition qeqb (a b : Qc) : bool := Qeq_bool (this a) (this b).
 Fixpoint leqb {A} (e : A -> A -> bool) (a b : list A) : bool :=
   match a, b with [], [] => true | x :: a', y :: b' => e x y && leqb e a' b' | _, _ => false end.
 Definition err_eqb (a b : err) : bool :=
-  match a, b with KeyError, KeyError | IndexError, IndexError | ValueError, ValueError | TypeError, TypeError => true | _, _ => false end.
+  match a, b with KeyError, KeyError | IndexError, IndexError | ValueError, ValueError | TypeError, TypeError | PyRatesException, PyRatesException => true | _, _ => false end.
 Definition res_eqb {A} (e : A -> A -> bool) (a b : res A) : bool :=
   match a, b with Ok x, Ok y => e x y | Err x, Err y => err_eqb x y | _, _ => false end.
 (* ---- stream gn *)
@@ -286,14 +286,12 @@ Definition r_g3 (c : rcase) := let '(t, L, f, reqs, times, rates, vr, ob) := c i
 Definition r_g4 (c : rcase) := let '(t, L, f, reqs, times, rates, vr, ob) := c in
   match f with DictForm => no_overlap t reqs | _ => true end.
 Definition r_g5 (c : rcase) := let '(t, L, f, reqs, times, rates, vr, ob) := c in
-  match f with DictForm => mixed_labels_ok t reqs | _ => true end.
-Definition r_g6 (c : rcase) := let '(t, L, f, reqs, times, rates, vr, ob) := c in
   match tsvi L with [] => true | _ => false end.
-Definition r_g7 (c : rcase) := let '(t, L, f, reqs, times, rates, vr, ob) := c in
+Definition r_g6 (c : rcase) := let '(t, L, f, reqs, times, rates, vr, ob) := c in
   covers L (map snd (spec_columns t f reqs)).
 """
 G_GUARDS = ["names_resolve", "not_too_long", "not_too_short"]
-R_GUARDS = ["names_resolve", "not_too_long", "not_too_short", "no_overlap", "mixed_labels_ok", "fresh_template", "covers"]
+R_GUARDS = ["names_resolve", "not_too_long", "not_too_short", "no_overlap", "fresh_template", "covers"]
 
 def cpath(p):
     return clist([cstr(x) for x in p])
